@@ -12,7 +12,7 @@ trap cleanup EXIT
 cd $WT
 git apply "$D/patch.diff" || { echo '{"applies": false}'; exit 1; }
 go build ./... > /tmp/sv.$$.build 2>&1; BUILD=$?
-MODS=$(grep '^+++ b/' "$D/patch.diff" | sed 's#^+++ b/##' | awk -F/ '{print "./"$1"/"$2"/..."}' | sort -u | tr '\n' ' ')
+MODS=$(grep '^+++ b/' "$D/patch.diff" | sed 's#^+++ b/##' | awk -F/ '{ if (NF > 2) print "./"$1"/"$2"/..."; else print "./"$1"/..." }' | sort -u | tr '\n' ' ')
 go test -vet=off -count=1 $MODS > /tmp/sv.$$.exist 2>&1; EXIST=$?
 cp "$D/demo_test.go" "$PKG/zz_seed_demo_test.go"
 go test -vet=off -count=1 "./$PKG" "$@" > /tmp/sv.$$.with 2>&1; WITH=$?
